@@ -1,8 +1,9 @@
 (* Extract_matops.v -- extraction of the sparse-matrix kernel models (C08) to OCaml.
-   Directives: ExtractCommon.v (trusted base, DESIGN.md section 6). *)
+   Directives: ExtractCommon.v (trusted base, DESIGN.md section 6).
+   BlockInst: the static_matrix<T,b,b> Scalar instance (ops_matops_block.ml); ComplexInst: std::complex<T>. *)
 From Amgcl Require Import ExtractCommon.
 From Coq Require Import QArith Qcanon.
-From Amgcl Require Import Scalar QcInst Vec Crs Kernels MatOps MatOps2.
+From Amgcl Require Import Scalar QcInst Vec Crs Kernels MatOps MatOps2 DirectUtil Inverse StaticMat BlockInst ComplexInst.
 Separate Extraction
   QcInst.QcS Scalar.is_zero Scalar.smax Scalar.smin
-  Vec Crs Kernels MatOps MatOps2.
+  Vec Crs Kernels MatOps MatOps2 StaticMat BlockInst ComplexInst.
